@@ -114,8 +114,7 @@ func reference(prog progSpec, in []seen) map[string]string {
 	}
 	switch prog.Template {
 	case "count":
-		out[key("vsum")] = "0"
-		out[key("last_v")] = "0"
+		out[key("vsum")] = "0" // dimensionless counters exist from load time; a gauge only once it was touched
 		for _, s := range in {
 			m := lineRe.FindStringSubmatch(s.line)
 			if m == nil {
@@ -146,7 +145,6 @@ func reference(prog progSpec, in []seen) map[string]string {
 			}
 		}
 	case "max":
-		out[key("biggest")] = "0"
 		out[key("everything")] = "0"
 		var big int64
 		for _, s := range in {
@@ -154,10 +152,10 @@ func reference(prog progSpec, in []seen) map[string]string {
 				if v, _ := strconv.ParseInt(m[3], 10, 64); v > big {
 					big = v
 				}
+				out[key("biggest")] = strconv.FormatInt(big, 10) // the comparison reads (and so creates) the gauge
 			}
 			add(key("everything"), 1)
 		}
-		out[key("biggest")] = strconv.FormatInt(big, 10)
 	default:
 		vh.Fatal("unknown template %q", prog.Template)
 	}
@@ -352,8 +350,15 @@ func main() {
 			return err
 		}
 		n++
-		vh.Out(runCase(c))
+		r := runCase(c)
+		vh.Out(r)
 		vh.Flush()
+		if r["returned"] != true {
+			// the stuck server still owns the process-global hook sink: no further case in this process
+			vh.Out(map[string]any{"summary": true, "cases": n, "aborted": true})
+			vh.Flush()
+			os.Exit(0)
+		}
 		return nil
 	})
 	if err != nil {
